@@ -66,6 +66,23 @@ def wellformed(data):
     return fails[:3]
 
 
+def member_digest(name, content):
+    """what a member holds, independent of the clock: nested zips (.npz) are opened and described entry by entry"""
+    if name.endswith(".npz"):
+        try:
+            with zipfile.ZipFile(io.BytesIO(content)) as z:
+                return ("npz", tuple((i.filename, i.compress_type, z.read(i.filename)) for i in z.infolist()))
+        except Exception as ex:
+            return ("npz-unreadable", type(ex).__name__)
+    return ("raw", content)
+
+
+def normalised_members(data):
+    schema, members, _ = valuecheck.archive_parts(data)
+    _, files = valuecheck.normalise_schema(schema)
+    return {f"{files[m]}.{m.rsplit('.', 1)[-1]}" if m in files else m: member_digest(m, c) for m, c in members.items()}
+
+
 def run(ctx):
     t0 = time.time()
     lean_ok = ctx.build(required_theorems=REQUIRED)
@@ -89,11 +106,12 @@ def run(ctx):
             for f in wellformed(base):
                 ofails.append((f, dict(kind="object", object=name, repr=repr(obj)[:800], sink="dumps", method="STORED")))
             nbase, _ = valuecheck.normalise_schema(valuecheck.archive_parts(base)[0])
+            mbase = normalised_members(base)
             base_obj = loads(base, trusted=get_untrusted_types(data=base))
             full = name in [n for n, _ in zoo()] or evaluations % 7 == 0
             methods = METHODS if full else [ctx.rng.choice(METHODS)]
             for method, level in methods:
-                for sink in ("dumps", "str", "path", "fileobj"):
+                for sink in ("dumps", "str", "path", "fileobj", "fileobj-append", "fileobj-rw", "bytesio"):
                     evaluations += 1
                     kw = dict(compression=method, compresslevel=level)
                     p = Path(d) / "a.skops"
@@ -106,8 +124,15 @@ def run(ctx):
                         elif sink == "path":
                             dump(obj, p, **kw)
                             data = p.read_bytes()
+                        elif sink == "bytesio":
+                            bio = io.BytesIO()
+                            dump(obj, bio, **kw)
+                            data = bio.getvalue()
                         else:
-                            with open(p, "wb") as fh:
+                            if sink == "fileobj-append" and p.exists():
+                                p.unlink()
+                            mode = {"fileobj": "wb", "fileobj-append": "ab", "fileobj-rw": "w+b"}[sink]
+                            with open(p, mode) as fh:
                                 dump(obj, fh, **kw)
                             data = p.read_bytes()
                     except Exception as ex:
@@ -115,12 +140,23 @@ def run(ctx):
                                        dict(kind="object", object=name, repr=repr(obj)[:800], sink=sink, method=method)))
                         continue
                     rep = dict(kind="object", object=name, repr=repr(obj)[:800], sink=sink, method=method, level=level)
-                    for f in wellformed(data):
+                    wf = wellformed(data)
+                    for f in wf:
                         ofails.append((f, rep))
+                    if any(f.startswith(("not-a-zip", "schema-missing", "schema-invalid", "zip-corrupt")) for f in wf):
+                        continue
                     schema, members, infos = valuecheck.archive_parts(data)
                     ns, _ = valuecheck.normalise_schema(schema)
                     if ns != nbase:
                         ofails.append((f"sink-dependent-schema: schema written to {sink} with compression {method}/{level} differs from dumps() beyond ids/uuids", rep))
+                    try:
+                        mnow = normalised_members(data)
+                        if mnow != mbase:
+                            diff = sorted(k for k in set(mnow) | set(mbase) if mnow.get(k) != mbase.get(k))
+                            ofails.append((f"sink-dependent-members: content of members {diff[:3]} written to {sink} with compression "
+                                           f"{method}/{level} differs from the dumps() archive", rep))
+                    except Exception:
+                        pass
                     bad_comp = [i.filename for i in infos if i.compress_type != method]
                     if bad_comp:
                         ofails.append((f"compression-ignored: members {bad_comp[:2]} are not stored with method {method}", rep))
@@ -144,9 +180,9 @@ def run(ctx):
     conclude(ctx, lean_ok, [], ofails, "archive/C12")
     ctx.coverage.update(
         evaluations=evaluations, distinct_nontrivial=len(distinct),
-        rule="zoo objects (all 7 compression settings x 4 sinks) and generated supported values (one random setting x 4 sinks; every 7th all settings): "
-             "zip validity, schema fields, refs<->members, flat names, normalised schema equality across sinks, loaded-object equality",
-        samples=samples, sinks=["dumps", "str", "Path", "file object"], methods=[f"{m}/{l}" for m, l in METHODS], wall=round(time.time() - t0, 1))
+        rule="zoo objects (all 7 compression settings x 7 sinks) and generated supported values (one random setting x 7 sinks; every 7th all settings): "
+             "zip validity, schema fields, refs<->members, flat names, normalised schema and member-content equality across sinks and compression settings, loaded-object equality",
+        samples=samples, sinks=["dumps", "str", "Path", "file object wb/ab/w+b", "BytesIO"], methods=[f"{m}/{l}" for m, l in METHODS], wall=round(time.time() - t0, 1))
     ctx.assumptions += ["zipfile's codec round trip (unzip(zip(c, members)) = members) is a library contract"]
 
 
